@@ -85,6 +85,43 @@ pub fn programs_for(cfgs: &[EnumCfg], slice: Slice, with_shapes: bool, extra_fil
   out
 }
 
+/// Injection (C05-C07, C20): every extension of a well-formed program by ONE new task with ONE statement (a read, a
+/// write or a declared write of any resource, or a require of any task followed by nothing). This reaches the
+/// "otherwise well-formed program + injected read/write without the required task dependency" shapes with one more
+/// task than the plain enumeration affords.
+pub fn inject_one_task(base: &[(Prog, Class)], slice: Slice) -> Vec<(Prog, Class)> {
+  let mut out = Vec::new();
+  let mut seen = std::collections::BTreeSet::new();
+  for (p, c) in base {
+    if !c.wf() || p.n_tasks() >= 3 { continue; }
+    let n = p.n_tasks() as Tid;
+    let mut stmts: Vec<Op> = Vec::new();
+    for r in 0..p.n_res {
+      stmts.push(Op::Read(r, RC::Exact));
+      stmts.push(Op::Write(r, Src::One, RC::Exact));
+      stmts.push(Op::WriteDecl(r, Src::Zero, RC::Exact));
+    }
+    for op in stmts {
+      let mut q = p.clone();
+      q.bodies.push(vec![Stmt { guard: None, op }]);
+      // also let an existing task require the new one last (so that the new task is reached through a require)
+      let mut variants = vec![q.clone()];
+      for t in 0..n {
+        let mut q2 = q.clone();
+        q2.bodies[t as usize].push(Stmt { guard: None, op: Op::Req(n, OC::PieAlways) });
+        variants.push(q2);
+      }
+      for v in variants {
+        let cv = crate::enumerate::canonical(&v);
+        if !seen.insert(cv.clone()) { continue; }
+        let cl = classify(&cv);
+        if in_slice(&cl, slice) { out.push((cv, cl)); }
+      }
+    }
+  }
+  out
+}
+
 fn has_op(p: &Prog, f: impl Fn(&Op) -> bool) -> bool { p.bodies.iter().flatten().any(|s| f(&s.op)) }
 
 /// A program is interesting for incremental behaviour only if something can change: it reads a resource.
@@ -92,7 +129,21 @@ fn reads_something(p: &Prog) -> bool { has_op(p, |o| matches!(o, Op::Read(..))) 
 
 /// One group of programs explored to one history depth.
 #[derive(Clone, Debug)]
-pub struct Group { pub enums: Vec<EnumCfg>, pub depth: usize, pub shapes: bool }
+pub struct Group { pub enums: Vec<EnumCfg>, pub depth: usize, pub shapes: bool, pub gen_consumer_only: bool, pub crashes: usize, pub inject: bool }
+
+/// Some task writes a resource that a different task reads (generator/consumer structure).
+pub fn gen_consumer(p: &Prog) -> bool {
+  for (a, ba) in p.bodies.iter().enumerate() {
+    for s in ba {
+      if let Op::Write(r, _, _) | Op::WriteDecl(r, _, _) = s.op {
+        for (b, bb) in p.bodies.iter().enumerate() {
+          if a != b && bb.iter().any(|s2| matches!(s2.op, Op::Read(rr, _) if rr == r)) { return true; }
+        }
+      }
+    }
+  }
+  false
+}
 
 fn parse_enum(base: &EnumCfg, t: &str) -> Option<EnumCfg> {
   let v: Vec<usize> = t.split(',').filter_map(|x| x.parse().ok()).collect();
@@ -111,6 +162,7 @@ pub fn run(args: &Args) -> i32 {
   };
   let mut slice = Slice::Wf;
   let mut map_faulty = false;
+  let mut crash_group = false;
   // Base plan. `s`: structural enumeration with exact resource checkers and two output checkers (exact and pie's
   // AlwaysConsistent: "require the generator, ignore its output, read the file" is the idiomatic pie pattern and the
   // only way a reader depends on a writer through the resource alone). `rich`: small programs over the full
@@ -123,32 +175,53 @@ pub fn run(args: &Args) -> i32 {
     e.write_decl = true;
     e
   };
+  // `nw`: require-structure family: no writes, every require with pie's AlwaysConsistent (so `acc` stays what was
+  // read), guards only `== 1`: cheap enough to reach 3-4 tasks with 4-5 statements (value-dependent require shapes).
+  let nw = |n: usize, r: u8, k: usize| { let mut e = EnumCfg::structural(n, r, k); e.ocs = vec![OC::PieAlways]; e.srcs = vec![]; e.guard_vals = vec![1]; e };
+  // `cw`: generator/consumer programs with coarse (existence-only) write checkers as well.
+  let cw = |n: usize, r: u8, k: usize| { let mut e = EnumCfg::structural(n, r, k); e.ocs = vec![OC::Equals, OC::PieAlways]; e.write_rcs = vec![RC::Exact, RC::Exists]; e };
   let mut groups: Vec<Group> = if quick {
     vec![
-      Group { enums: vec![s(2, 2, 3)], depth: 5, shapes: true },
-      Group { enums: vec![s(3, 2, 2), rich(2, 2, 2)], depth: 4, shapes: false },
+      Group { enums: vec![s(2, 2, 3)], depth: 5, shapes: true, gen_consumer_only: false, crashes: 0, inject: false },
+      Group { enums: vec![s(3, 2, 2), rich(2, 2, 2)], depth: 4, shapes: false, gen_consumer_only: false, crashes: 0, inject: false },
+      // generator/consumer programs one statement larger (conditional generators with an always-consistent require)
+      Group { enums: vec![s(2, 2, 4)], depth: 4, shapes: false, gen_consumer_only: true, crashes: 0, inject: false },
     ]
   } else {
     vec![
-      Group { enums: vec![s(2, 2, 4), rich(2, 2, 3)], depth: 6, shapes: true },
-      Group { enums: vec![s(3, 2, 3), s(3, 3, 3)], depth: 5, shapes: false },
-      Group { enums: vec![s(4, 2, 3)], depth: 4, shapes: false },
+      Group { enums: vec![s(2, 2, 4), rich(2, 2, 3)], depth: 6, shapes: true, gen_consumer_only: false, crashes: 0, inject: false },
+      Group { enums: vec![s(3, 2, 3), s(3, 3, 3)], depth: 5, shapes: false, gen_consumer_only: false, crashes: 0, inject: false },
+      Group { enums: vec![s(4, 2, 3)], depth: 4, shapes: false, gen_consumer_only: false, crashes: 0, inject: false },
     ]
   };
   let filter: Box<dyn Fn(&Prog) -> bool> = Box::new(|p| reads_something(p));
   match prop {
-    Prop::C01 | Prop::C02 => {}
+    Prop::C01 | Prop::C02 => { crash_group = true; }
     Prop::C03 | Prop::C04 => {
       cfg.probe = prop == Prop::C03; cfg.bu_over_report = true; cfg.bu_then = true; cfg.bu_pre = !quick; cfg.max_roots = if quick { 1 } else { 2 };
+      if quick { groups[0].depth = 4; }
+      // coarse write checkers: only the checker-relative oracles apply there (no from-scratch content comparison)
+      groups.push(Group { enums: vec![cw(2, 2, 4)], depth: 4, shapes: false, gen_consumer_only: true, crashes: 0, inject: false });
+      groups.push(Group { enums: vec![if quick { nw(3, 1, 4) } else { nw(3, 2, 5) }], depth: 4, shapes: false, gen_consumer_only: false, crashes: 0, inject: false });
+      if !quick { groups.push(Group { enums: vec![nw(4, 1, 5)], depth: 4, shapes: false, gen_consumer_only: false, crashes: 0, inject: false }); }
     }
-    Prop::C05 | Prop::C06 | Prop::C07 | Prop::C20 => { slice = Slice::WfOrViol; }
+    Prop::C05 | Prop::C06 | Prop::C07 | Prop::C20 => {
+      slice = Slice::WfOrViol; crash_group = true;
+      if quick { groups[0].depth = 4; }
+      // injected violations: one new one-statement task added to every well-formed generator/consumer program
+      groups.push(Group { enums: vec![s(2, 2, if quick { 3 } else { 4 })], depth: 4, shapes: true, gen_consumer_only: true, crashes: 0, inject: true });
+      // require-structure family (value-dependent cycles of length up to 3, cycles appearing in later sessions)
+      if prop == Prop::C07 || prop == Prop::C20 {
+        groups.push(Group { enums: vec![if quick { nw(3, 1, 4) } else { nw(3, 1, 5) }], depth: 4, shapes: false, gen_consumer_only: false, crashes: 0, inject: false });
+      }
+    }
     Prop::C08 => {
       // plus programs that declare several dependencies with different checkers on one target (recorded finding F2)
       slice = Slice::WfOrMulti;
       let mut e = EnumCfg::structural(if quick { 1 } else { 2 }, 1, if quick { 2 } else { 3 });
       e.read_rcs = vec![RC::Exact, RC::Exists];
       e.ocs = vec![OC::Equals, OC::IsZero];
-      groups.push(Group { enums: vec![e], depth: if quick { 5 } else { 6 }, shapes: false });
+      groups.push(Group { enums: vec![e], depth: if quick { 5 } else { 6 }, shapes: false, gen_consumer_only: false, crashes: 0, inject: false });
     }
     Prop::C09 => {
       let mut e = EnumCfg::structural(2, 2, if quick { 2 } else { 3 });
@@ -156,7 +229,7 @@ pub fn run(args: &Args) -> i32 {
       e.read_rcs = vec![RC::Exact, RC::Exists, RC::Always];
       e.write_rcs = vec![RC::Exact, RC::Exists, RC::Always];
       e.write_decl = true;
-      groups.push(Group { enums: vec![e], depth: if quick { 5 } else { 6 }, shapes: false });
+      groups.push(Group { enums: vec![e], depth: if quick { 5 } else { 6 }, shapes: false, gen_consumer_only: false, crashes: 0, inject: false });
     }
     Prop::C18 => { cfg.set_fail = true; map_faulty = true; }
     Prop::C19 => {
@@ -165,14 +238,19 @@ pub fn run(args: &Args) -> i32 {
       let mut e = EnumCfg::structural(2, 1, if quick { 3 } else { 4 });
       e.panic_op = true;
       groups = if quick {
-        vec![Group { enums: vec![s(2, 2, 3), e], depth: 4, shapes: true }]
+        vec![Group { enums: vec![s(2, 2, 3), e], depth: 4, shapes: true, gen_consumer_only: false, crashes: 0, inject: false }]
       } else {
-        vec![Group { enums: vec![s(2, 2, 3), e], depth: 5, shapes: true }, Group { enums: vec![s(3, 2, 3)], depth: 4, shapes: false }]
+        vec![Group { enums: vec![s(2, 2, 3), e], depth: 5, shapes: true, gen_consumer_only: false, crashes: 0, inject: false }, Group { enums: vec![s(3, 2, 3)], depth: 4, shapes: false, gen_consumer_only: false, crashes: 0, inject: false }]
       };
     }
-    Prop::C16 => { cfg.collect_digests = true; slice = Slice::WfOrViol; cfg.bu_then = true; if quick { groups[0].depth = 4; } }
-    Prop::C17 => { slice = Slice::WfOrViol; cfg.bu_then = true; crate::runner::set_helper_mode_global(true); if quick { groups[0].depth = 4; groups[1].depth = 3; } else { groups[0].depth = 5; groups[1].depth = 4; } }
+    Prop::C16 => { cfg.collect_digests = true; slice = Slice::WfOrViol; cfg.bu_then = true; if quick { groups.truncate(2); groups[0].depth = 4; groups[1].depth = 3; } }
+    Prop::C17 => { slice = Slice::WfOrViol; cfg.bu_then = true; crate::runner::set_helper_mode_global(true); if quick { groups.truncate(2); groups[0].depth = 4; groups[1].depth = 3; } else { groups[0].depth = 5; groups[1].depth = 4; } }
     _ => {}
+  }
+  if crash_group {
+    // Histories with one aborted build (crash decoration at every crash point) over the smallest programs: what was
+    // built before on the instance includes builds that did not finish.
+    groups.push(Group { enums: vec![s(2, 2, if quick { 2 } else { 3 })], depth: if quick { 4 } else { 5 }, shapes: true, gen_consumer_only: false, crashes: 1, inject: false });
   }
   // Experiment overrides (not used by the registered commands).
   if let Ok(e) = std::env::var("VERIF_GROUPS") {
@@ -180,7 +258,7 @@ pub fn run(args: &Args) -> i32 {
     let base = groups[0].enums[0].clone();
     groups = e.split(';').filter_map(|g| {
       let (d, en) = g.split_once(':')?;
-      Some(Group { enums: en.split('+').filter_map(|t| parse_enum(&base, t)).collect(), depth: d.parse().ok()?, shapes: true })
+      Some(Group { enums: en.split('+').filter_map(|t| parse_enum(&base, t)).collect(), depth: d.parse().ok()?, shapes: true, gen_consumer_only: false, crashes: 0, inject: false })
     }).collect();
   }
   if let Ok(w) = std::env::var("VERIF_WALL") { if let Ok(w) = w.parse() { cfg.wall_cap = w; } }
@@ -190,9 +268,15 @@ pub fn run(args: &Args) -> i32 {
   let mut group_desc: Vec<Value> = Vec::new();
   let started = std::time::Instant::now();
   for g in &groups {
-    let mut programs = programs_for(&g.enums, slice, g.shapes, &*filter);
+    let gfilter = |p: &Prog| filter(p) && (!g.gen_consumer_only || gen_consumer(p));
+    let mut programs = if g.inject {
+      let base = programs_for(&g.enums, Slice::Wf, g.shapes, &gfilter);
+      inject_one_task(&base, slice)
+    } else {
+      programs_for(&g.enums, slice, g.shapes, &gfilter)
+    };
     // a program explored in an earlier (deeper) group is not explored again
-    programs.retain(|(p, _)| !all_programs.iter().any(|(q, _)| q == p));
+    if g.crashes == 0 { programs.retain(|(p, _)| !all_programs.iter().any(|(q, _)| q == p)); }
     if map_faulty {
       // C18: every resource dependency uses the error-injecting checker (= Exact while its failure flag is clear).
       for (p, _) in programs.iter_mut() {
@@ -208,15 +292,18 @@ pub fn run(args: &Args) -> i32 {
     }
     let mut gcfg = cfg.clone();
     gcfg.depth = g.depth;
+    if g.crashes > 0 { gcfg.crashes = g.crashes; }
+    let gstart = std::time::Instant::now();
     gcfg.wall_cap = (cfg.wall_cap - started.elapsed().as_secs_f64()).max(1.0);
     let gs = run_programs(&mut rep, &gcfg, programs.clone(), threads());
     group_desc.push(json!({
       "enumerations": g.enums.iter().map(|c| c.describe()).collect::<Vec<_>>(), "shape_programs": g.shapes, "history_depth": g.depth,
+      "only_generator_consumer_programs": g.gen_consumer_only, "one_statement_task_injected_into_each": g.inject, "crashes_per_history": gcfg.crashes, "wall_s": gstart.elapsed().as_secs_f64(),
       "programs": gs.programs, "states": gs.states, "transitions": gs.transitions,
       "programs_to_fixed_point": gs.fixed_point_programs, "programs_cut_at_depth": gs.depth_capped_programs, "wall_cap_hit": gs.wall_capped,
     }));
     stats.merge(&gs);
-    all_programs.extend(programs);
+    if g.crashes == 0 { all_programs.extend(programs); }
   }
   cfg.depth = groups.iter().map(|g| g.depth).max().unwrap_or(0);
   // C16, child mode: only write the per-history digests for the parent to compare.
@@ -292,8 +379,8 @@ fn install() { crate::runner::install_panic_hook(); }
 /// C16: the same bounded exploration in a second process (fresh hash seeds, fresh address space); every history's
 /// step digest must agree pairwise.
 fn c16_cross_process(args: &Args, rep: &mut Report, stats: &mut Stats, programs: &[(Prog, Class)]) {
-  let _ = std::fs::create_dir_all("/verif/tmp");
-  let file = format!("/verif/tmp/c16-{}.bin", std::process::id());
+  let _ = std::fs::create_dir_all(format!("{}/tmp", crate::common::verif_dir()));
+  let file = format!("{}/tmp/c16-{}.bin", crate::common::verif_dir(), std::process::id());
   let exe = std::env::current_exe().unwrap_or_else(|e| engine_error(&format!("current_exe: {}", e)));
   let status = std::process::Command::new(exe)
     .arg("C16").arg(args.tier.as_str()).arg("--digests-to").arg(&file)
